@@ -3,7 +3,7 @@
 #   pipes <dir>/ops.txt (a shard written by run.py, e.g. /tmp/walker-go-t/1) through the Lean driver
 #   /verif/lean/.lake/build/bin/drv_walker and shows the disagreements with <dir>/go.out,
 #   shortest op first. For `ok` lines the first differing position of the dump is marked.
-#   Works for both streams (`walk …` and `print …` ops); for print ops the four fields are compared one by one.
+#   Works for both streams (`walk …` and `print …` ops); for print ops the five fields are compared one by one.
 import sys, subprocess, time, collections
 d = sys.argv[1]; mx = int(sys.argv[2]) if len(sys.argv) > 2 else 5
 t = time.time()
@@ -34,7 +34,7 @@ for _, o, g, l in bad[:mx]:
     if o.startswith('print '):
         gf = dict(x.split('=', 1) for x in g.split(' ') if '=' in x); lf = dict(x.split('=', 1) for x in l.split(' ') if '=' in x)
         if not lf: print('  lean', l[:300])
-        for key in ('tree', 'walk', 'msg', 'same'):
+        for key in ('tree', 'walk', 'msg', 'same', 'text'):
             a, b = gf.get(key, ''), lf.get(key, '')
             if a == b: continue
             k = next((i for i, (x, y) in enumerate(zip(a, b)) if x != y), min(len(a), len(b)))
